@@ -7,10 +7,14 @@
   acyclic input — diamonds included — is rejected), and it accepts only if no cycle can be reached (every
   cycle is reported).  The walk's depth is bounded by the length of the chain, which holds distinct
   definitions: that is why the repaired code terminates where the old code overflowed the stack.
-  Determinism across Go map orders is not a property of a Lean function (every Lean function is one): it is
-  checked by repeated compiles of the same module set in the correspondence stream.
+  On a finite set of definitions the walk always answers (`C11_walk_total`, with the fuel it needs), and what
+  it answers is a property of the reference graph alone (`C11_verdict_is_graph_property`): the order in
+  which a definition lists its references — which is where the order of modules, statements and Go map
+  iteration enters these checks — cannot change it (`C11_order_independent`).
+  Determinism of the rest of the compiler across Go map orders is not a property of a Lean function (every
+  Lean function is one): it is checked by repeated compiles of the same module set in the correspondence stream.
 -/
-import YV.Proofs.YCycle
+import YV.Proofs.YCycleT
 namespace YV.Props.C11
 open YV.Cyc
 
@@ -32,11 +36,56 @@ theorem C11_chain_nodup (succ : α → List α) (fuel : Nat) (chain : List α) (
   · simp [hn] at h
   · exact List.nodup_cons.2 ⟨hn, hc⟩
 
+/-- **C11 (total).** Over a finite set of definitions closed under references, none of which lists more than
+    `D` references, the walk answers "cycle" or "no cycle" once it has `1 + |definitions|·(D+2)` units of
+    fuel: the depth is bounded by the chain of distinct definitions -/
+theorem C11_walk_total (succ : α → List α) (univ : List α) (D : Nat)
+    (hu : ∀ n ∈ univ, ∀ m ∈ succ n, m ∈ univ) (hD : ∀ n ∈ univ, (succ n).length ≤ D)
+    (fuel : Nat) (hf : 1 + univ.length * (D + 2) ≤ fuel) (n : α) (hn : n ∈ univ) :
+    walk succ fuel [] n ≠ .outOfFuel :=
+  walk_enough succ univ D hu hD univ.length fuel [] n List.nodup_nil (by simp) hn (by simp) hf
+
+/-- **C11 (the verdict is the graph's).** -/
+theorem C11_verdict_is_graph_property (succ : α → List α) (univ : List α) (D : Nat)
+    (hu : ∀ n ∈ univ, ∀ m ∈ succ n, m ∈ univ) (hD : ∀ n ∈ univ, (succ n).length ≤ D)
+    (fuel : Nat) (hf : 1 + univ.length * (D + 2) ≤ fuel) (n : α) (hn : n ∈ univ) :
+    (walk succ fuel [] n = .cycle ↔ ReachesCycle succ n) ∧ (walk succ fuel [] n = .ok ↔ ¬ ReachesCycle succ n) :=
+  walk_verdict succ univ D hu hD fuel hf n hn
+
+/-- **C11 (order independence of the cycle verdict).** Two listings of the same references — any
+    reordering or repetition inside each definition — get the same verdict whenever both walks answer (and by
+    `C11_walk_total` they do) -/
+theorem C11_order_independent (succ succ' : α → List α) (hsame : ∀ n m, m ∈ succ n ↔ m ∈ succ' n)
+    (fuel fuel' : Nat) (n : α) (h : walk succ fuel [] n ≠ .outOfFuel) (h' : walk succ' fuel' [] n ≠ .outOfFuel) :
+    walk succ fuel [] n = walk succ' fuel' [] n := by
+  cases hw : walk succ fuel [] n with
+  | outOfFuel => exact absurd hw h
+  | ok =>
+    cases hw' : walk succ' fuel' [] n with
+    | outOfFuel => exact absurd hw' h'
+    | ok => rfl
+    | cycle =>
+      exact absurd ((walk_sound succ' fuel' n hw').congr fun a b hb => (hsame a b).2 hb)
+        (walk_ok_acyclic succ fuel [] n hw)
+  | cycle =>
+    cases hw' : walk succ' fuel' [] n with
+    | outOfFuel => exact absurd hw' h'
+    | cycle => rfl
+    | ok =>
+      exact absurd ((walk_sound succ fuel n hw).congr fun a b hb => (hsame a b).1 hb)
+        (walk_ok_acyclic succ' fuel' [] n hw')
+
 /-! non-vacuity: a diamond is accepted, a two-cycle and a self reference are reported -/
 def diamond : Nat → List Nat | 1 => [2, 3] | 2 => [4] | 3 => [4] | _ => []
 def twoCycle : Nat → List Nat | 1 => [2] | 2 => [1] | _ => []
 example : walk diamond 10 [] 1 = .ok := by decide
 example : walk twoCycle 10 [] 1 = .cycle := by decide
 example : walk (fun _ => [7]) 10 [] 7 = .cycle := by decide
+def diamond' : Nat → List Nat | 1 => [3, 2, 3] | 2 => [4] | 3 => [4] | _ => []
+example : walk diamond 10 [] 1 = walk diamond' 12 [] 1 :=
+  C11_order_independent diamond diamond' (by intro n m; unfold diamond diamond'; split <;> simp; omega) 10 12 1
+    (by decide) (by decide)
+example : walk diamond 17 [] 1 ≠ .outOfFuel :=
+  C11_walk_total diamond [1, 2, 3, 4] 2 (by decide) (by decide) 17 (by decide) 1 (by decide)
 
 end YV.Props.C11
